@@ -45,7 +45,8 @@ type c19Rec struct {
 }
 
 type c19File struct {
-	Recs []c19Rec `json:"recs"`
+	Leading []string `json:"leading_blanks,omitempty"` // whitespace content of blank lines before the first record
+	Recs    []c19Rec `json:"recs"`
 }
 
 type c19Input struct {
@@ -78,6 +79,10 @@ func (r c19Rec) eol() string {
 func (f c19File) render() ([]byte, []c19Truth) {
 	var out bytes.Buffer
 	var tr []c19Truth
+	for _, b := range f.Leading {
+		out.WriteString(b)
+		out.WriteByte('\n')
+	}
 	for _, r := range f.Recs {
 		var lines []string
 		h := ">" + r.Name
@@ -145,7 +150,15 @@ func (f c19File) encode() string {
 		}
 		rs = append(rs, strings.Join([]string{c19Hex(r.Name), desc, c19Hex(r.Bases), fmt.Sprint(r.Width), eol, fin, bl}, ","))
 	}
-	return strings.Join(rs, ";")
+	lead := "n"
+	if len(f.Leading) > 0 {
+		var bs []string
+		for _, b := range f.Leading {
+			bs = append(bs, c19Hex(b))
+		}
+		lead = strings.Join(bs, ".")
+	}
+	return lead + "/" + strings.Join(rs, ";")
 }
 
 func c19RecStr(name string, length int, start int64, bpl, bytesPl int) string {
@@ -300,7 +313,7 @@ type c19Opts struct {
 func c19RecClass(f c19File, i int) string {
 	r := f.Recs[i]
 	var cls []string
-	blankBefore := false
+	blankBefore := len(f.Leading) > 0
 	for j := 0; j < i; j++ {
 		if len(f.Recs[j].Blanks) > 0 {
 			blankBefore = true
@@ -700,11 +713,20 @@ func c19RandomFile(rnd *Rand, long bool) c19File {
 		}
 		f.Recs = append(f.Recs, r)
 	}
+	if rnd.coin(1, 6) {
+		f.Leading = c19Blanks(rnd, f.Recs[0].CRLF)
+		if len(f.Leading) == 0 {
+			f.Leading = []string{""}
+		}
+	}
 	return f
 }
 
 func c19Hist(r *Result, f c19File) {
 	r.hist(fmt.Sprintf("file.records=%d", len(f.Recs)))
+	if len(f.Leading) > 0 {
+		r.hist("file.blank-lines-before-first-record")
+	}
 	for i, rec := range f.Recs {
 		L, w := len(rec.Bases), rec.Width
 		switch {
@@ -951,7 +973,7 @@ func checkC19(c *ctx) {
 	r.Rule = "structured FASTA files rendered by the generator: (a) a grid of all 1-record files with width 1..4, length 0..2*width+1, LF/CRLF, " +
 		"with/without final newline, with/without description, and all 2-record files over a smaller grid with 0..2 blank lines between the records; " +
 		"(b) random files of 1..5 records, widths {1..8,60}, lengths 0 / <width / =width / k*width / k*width+r, LF or CRLF per record, optional " +
-		"description, blank (whitespace-only) lines after records, last record with or without final newline; (c) a few files with lines longer than 64 KiB. " +
+		"description, blank (whitespace-only) lines before the first and after any record, last record with or without final newline; (c) a few files with lines longer than 64 KiB. " +
 		"Every (record,start,end) with 0<=start<=end<=length for records up to 12 bases (else whole + boundary-biased random ranges), " +
 		"each read with buffer-size sequences over {1,2,3,7,64,4096} used cyclically. One evaluation = one range read with one size sequence; " +
 		"non-trivial = non-empty range; distinct = distinct (file,record,range,sizes). Malformed FASTA bytes and malformed .fai text are compared " +
@@ -974,6 +996,8 @@ func checkC19(c *ctx) {
 		{Recs: []c19Rec{{Name: "a", Bases: "ACGTAC", Width: 4, Fin: true, Blanks: []string{""}}, {Name: "b", Bases: "GGGGTT", Width: 4, Fin: true}}},
 		{Recs: []c19Rec{{Name: "a", Bases: "", Width: 4, Fin: true}, {Name: "b", Bases: "GGGGTT", Width: 4, Fin: true}}},
 		{Recs: []c19Rec{{Name: "a", Bases: "ACGT", Width: 4, Fin: false}}},
+		{Leading: []string{""}, Recs: []c19Rec{{Name: "a", Bases: "ACGTA", Width: 4, Fin: true}}},
+		{Leading: []string{" \t", "\r"}, Recs: []c19Rec{{Name: "a", Bases: "ACGTACGT", Width: 4, CRLF: true, Fin: false}}},
 		{Recs: []c19Rec{{Name: "a", Bases: "", Width: 1, Fin: false}}},
 		{Recs: []c19Rec{{Name: "a\"b", Bases: "ACGTA", Width: 2, Fin: true}}},
 		{Recs: []c19Rec{{Name: "\"ab", Bases: "ACGTA", Width: 2, Fin: true}}},
